@@ -95,7 +95,7 @@ func c20Doc(base int, subs []c20Sub, variant string) string {
 			inner = item("<img src=\"http://example.com/img/" + t.U() + ".jpg\" width=\"400\" height=\"300\">")
 			if variant == "noscripting" {
 				u := t.U()
-				inner = item("<figure><picture><source srcset=\"http://example.com/img/" + u + "-ph.webp 1x\"></picture><noscript><img src=\"http://example.com/img/" + u + "-real.jpg\" width=\"400\" height=\"300\"></noscript><figcaption>" + t.W(4) + "</figcaption></figure>")
+				inner = item("<figure><picture><source data-srcset=\"http://example.com/img/" + u + "-lazy.webp\" type=\"image/webp\"><img class=\"lazyload\" src=\"http://example.com/img/placeholder.gif\" alt=\"placeholder\"></picture><noscript><img src=\"http://example.com/img/" + u + "-real.jpg\" width=\"400\" height=\"300\"></noscript><figcaption>" + t.W(4) + "</figcaption></figure>")
 			}
 		}
 		return
@@ -209,6 +209,8 @@ func c20Enumerate(tier string, emit func(*eng.Case)) {
 			emit(&eng.Case{Kind: "prune", P: map[string]string{"base": fmt.Sprint(b), "variant": "table-first", "subs": enc([]c20Sub{s}), "doc": fmt.Sprintf("base=%d table-first %s", b, desc([]c20Sub{s}))}})
 			if s.content <= 1 {
 				emit(&eng.Case{Kind: "prune", P: map[string]string{"base": fmt.Sprint(b), "variant": "in-bold", "subs": enc([]c20Sub{s}), "doc": fmt.Sprintf("base=%d in-bold %s", b, desc([]c20Sub{s}))}})
+			}
+			if c20Contents[s.content] == "img" {
 				emit(&eng.Case{Kind: "prune", P: map[string]string{"base": fmt.Sprint(b), "variant": "noscripting", "subs": enc([]c20Sub{s}), "doc": fmt.Sprintf("base=%d noscripting %s", b, desc([]c20Sub{s}))}})
 			}
 			emit(&eng.Case{Kind: "prune", P: map[string]string{"base": fmt.Sprint(b), "variant": "decoys", "subs": enc([]c20Sub{s}), "doc": fmt.Sprintf("base=%d decoys %s", b, desc([]c20Sub{s}))}})
